@@ -44,6 +44,7 @@ func generateInitiateTag() uint32 {
 var (
 	ErrChunk                         = errors.New("abort chunk, with following errors")
 	ErrShutdownNonEstablished        = errors.New("shutdown called in non-established state")
+	ErrShutdownIncomplete            = errors.New("association closed before the shutdown sequence completed")
 	ErrAssociationClosedBeforeConn   = errors.New("association closed before connecting")
 	ErrAssociationClosed             = errors.New("association closed")
 	ErrSilentlyDiscard               = errors.New("silently discard")
@@ -266,6 +267,7 @@ type Association struct {
 	willSendShutdownAck      bool
 	willSendShutdownComplete bool
 	shutdownCompletePending  bool
+	shutdownCompleteReceived bool
 
 	willSendAbort      bool
 	willSendAbortCause errorCause
@@ -1040,6 +1042,16 @@ func (a *Association) Shutdown(ctx context.Context) error {
 
 	select {
 	case <-a.closeWriteLoopCh:
+		// The write loop also ends when the association is closed, aborted or loses its
+		// transport: only the peer's SHUTDOWN-ACK or SHUTDOWN-COMPLETE tells that it got everything.
+		a.lock.RLock()
+		completed := a.shutdownCompletePending || a.shutdownCompleteReceived
+		a.lock.RUnlock()
+
+		if !completed {
+			return fmt.Errorf("%w: shutdown %s", ErrShutdownIncomplete, a.name)
+		}
+
 		return nil
 	case <-ctx.Done():
 		return ctx.Err()
@@ -3348,6 +3360,7 @@ func (a *Association) handleShutdownComplete(_ *chunkShutdownComplete) error {
 	state := a.getState()
 	if state == shutdownAckSent {
 		a.t2Shutdown.stop()
+		a.shutdownCompleteReceived = true
 
 		return a.close()
 	}
